@@ -894,8 +894,8 @@ func shapeOf(in Input) string {
 
 // sig: known-finding signature, computed from the INPUT only by replaying the history on the
 // finite-set reading of the property (never on gorm): the first operation that meets the exact
-// trigger condition of one of the two known defects names the case (two more, belongs-to
-// Unscoped Delete / Clear, were fixed in /repo: d23ce2a, 75c7076; their inputs are ordinary now).
+// trigger condition of the one known defect names the case (three more, belongs-to Unscoped
+// Delete / Clear / Replace, were fixed in /repo: d23ce2a, 75c7076, 5e2c10c; their inputs are ordinary now).
 func sig(in Input) string {
 	// (a kept and reused *Association handle was a finding until /repo 0e58756; same-handle
 	// histories are ordinary inputs now)
@@ -905,7 +905,7 @@ func sig(in Input) string {
 // sigOther: the known shapes that do not depend on how the handle is obtained.
 func sigOther(in Input) string {
 	rel := rels[in.Rel]
-	if rel.Kind != "KBelongs" && rel.Kind != "KM2M" {
+	if rel.Kind != "KM2M" {
 		return ""
 	}
 	sets := make([]map[int64]bool, len(in.Owners))
@@ -948,14 +948,6 @@ func sigOther(in Input) string {
 				}
 			}
 			continue
-		}
-		if rel.Kind == "KBelongs" && op.Unscoped {
-			switch op.Op {
-			case "append", "replace":
-				if any {
-					return "belongs-to-unscoped-replace-deletes-new-target"
-				}
-			}
 		}
 		if rel.Kind == "KM2M" && op.Op == "replace" && len(in.Owners) > 1 {
 			for i, s := range sets {
